@@ -96,6 +96,7 @@ CRAFT_MUT = ["none", "drop_root", "bad_token_sig", "bad_md_sig", "wrong_pointer"
              "self_att", "md_only", "tokens_only", "remd"]
 ATTEST_MODES = ["own", "third", "observed", "alt_ptr", "alt_sig", "short"]
 AA_SITE = "should_sign:already_attested"
+AA_SHADOW_SITE = "should_sign:already_attested:other_authority_on_same_metadata"
 
 
 def pad(h: bytes) -> bytes:
@@ -268,7 +269,7 @@ def _verify(keybin: bytes, msg: bytes, sig: bytes) -> bool:
 # ---- one case ---------------------------------------------------------------------------------------------
 
 class Run:
-    def __init__(self, ops: list, loop, known_aa: bool) -> None:
+    def __init__(self, ops: list, loop, known_aa: tuple) -> None:
         from ipv8.attestation.identity.community import IdentityCommunity
         from ipv8.attestation.identity.manager import IdentityManager
         from ipv8.messaging.serialization import default_serializer
@@ -309,7 +310,7 @@ class Run:
         return self.loop.time()
 
     def fail(self, clause: str, site: str, msg: str) -> None:
-        if clause == "C1" and site == AA_SITE and self.known_aa:
+        if clause == "C1" and site in self.known_aa:
             self.excluded += 1
             return
         self.viols.append(Violation(clause, site, msg, self.case))
@@ -406,6 +407,12 @@ class Run:
             self.fail("C1", "attest:destination", f"{ROLE[y]} sent an attestation to an unknown address")
             return
         why = self.model.why_not(y, p, mdh, self.now())
+        if why == "already_attested" and any(
+                subj == p and ptr == mdh and auth != self.keybins[y] and _verify(auth, ptr, s)
+                for subj, auth, ptr, s in self.model.embedded_att[y]):
+            # second root cause: y was shown a valid attestation of another authority over the same metadata
+            # (the Attestations table has room for one row per metadata entry)
+            why = "already_attested:other_authority_on_same_metadata"
         if why is not None:
             owner = [ROLE[q] for q in range(NNODES) if mdh in self.model.view[y][q].mds]
             self.fail("C1", "should_sign:" + why,
@@ -607,12 +614,12 @@ class Run:
                           f"{ROLE[y]} did not attest the honestly advertised metadata {mdh[:6].hex()} of {ROLE[x]} "
                           f"although its latest registration matches: {self.describe_regs(y)}")
 
-    def craft(self, x: int, y: int, mut: int, j: int, hs: list, nm: int, meta: int, omit: int, own: int) -> None:
+    def craft(self, x: int, y: int, mut: int | str, j: int, hs: list, nm: int, meta: int, omit: int, own: int) -> None:
         from ipv8.attestation.identity import payload as pl
         from ipv8.attestation.identity.metadata import Metadata
         from ipv8.attestation.tokentree.token import Token
         key = self.nodes[x].key
-        mutation = CRAFT_MUT[mut % len(CRAFT_MUT)]
+        mutation = mut if isinstance(mut, str) else CRAFT_MUT[mut % len(CRAFT_MUT)]
         self.model.dirty.add((x, y))
         ov = self.ov[x]
 
@@ -710,7 +717,7 @@ class Run:
 NT_FLAGS = ("two_live", "after_expiry", "replay", "replay_attested", "beyond", "bad_attest")
 
 
-def execute(ctx: Ctx | None, ops: list, known_aa: bool = False) -> Run:
+def execute(ctx: Ctx | None, ops: list, known_aa: tuple = ()) -> Run:
     # the modules must be loaded before the clock is patched into them
     import ipv8.attestation.identity.community  # noqa: F401
     box: list[Run] = []
@@ -736,6 +743,7 @@ def execute(ctx: Ctx | None, ops: list, known_aa: bool = False) -> Run:
     if run.viols:
         # the very frequent re-attestation signature must not hide the others from the shrinker
         other = [v for v in run.viols if v.site != AA_SITE]
+        other = [v for v in other if v.site != AA_SHADOW_SITE] or other
         raise (other or run.viols)[0]
     return run
 
@@ -807,7 +815,7 @@ def _families(quick: bool) -> list:
     return out
 
 
-def _enum_shard(ctx: Ctx, shard: int, nshards: int, known_aa: bool) -> None:
+def _enum_shard(ctx: Ctx, shard: int, nshards: int, known_aa: tuple) -> None:
     cases = _families(ctx.quick)
     for k, ops in enumerate(cases):
         if k % nshards != shard:
@@ -883,7 +891,7 @@ def _strategy(max_ops: int):
     return st.tuples(preamble, body).map(lambda t: (t[0] + t[1])[:max_ops])
 
 
-def _random_shard(ctx: Ctx, shard: int, nshards: int, n: int, max_ops: int, known_aa: bool) -> None:
+def _random_shard(ctx: Ctx, shard: int, nshards: int, n: int, max_ops: int, known_aa: tuple) -> None:
     def body(ops):
         execute(ctx, ops, known_aa)
     hyp_run(ctx, "histories", _strategy(max_ops), body, n, shrink_examples=150 if ctx.quick else 400)
@@ -891,7 +899,7 @@ def _random_shard(ctx: Ctx, shard: int, nshards: int, n: int, max_ops: int, know
 
 def run(ctx: Ctx) -> None:
     # a recorded (not repaired) re-attestation defect is excluded by construction: the model then tolerates it
-    known_aa = is_known(PID, "C1", AA_SITE) is not None
+    known_aa = tuple(site for site in (AA_SITE, AA_SHADOW_SITE) if is_known(PID, "C1", site) is not None)
     shard_run(ctx, _enum_shard, extra=(known_aa,))
     shard_run(ctx, _random_shard, extra=(150 if ctx.quick else 2000, 30 if ctx.quick else 45, known_aa))
     ctx.note("pools", {"hashes": [h.hex() for h in HASHES], "names": NAMES, "reg_meta": REG_META,
@@ -900,4 +908,4 @@ def run(ctx: Ctx) -> None:
 
 
 def replay(ctx: Ctx, case: dict) -> None:
-    execute(None, case["ops"], known_aa=False)
+    execute(None, case["ops"])
